@@ -393,10 +393,10 @@ it succeeds, the container has one more element, EVERY dense attribute is expand
 default after its old rows (read in the final heap), sparse attribute objects are untouched, no existing heap cell is
 overwritten (so every value read before, and every stored sparse object, is intact), and all attributes stay aligned. -/
 theorem append_all_attributes (h : Heap) (c : Cont) (v : Nat) (hal : AlignedAll h c) :
-    ∃ h' attrs', contAppend v h c = .ok ((), h', { data := c.data ++ [v], attr := attrs' }) ∧
+    ∃ h' attrs', contAppend v h c = .ok ((), h', { c with data := c.data ++ [v], attr := attrs' }) ∧
       (∀ r, r < h.length → h'[r]? = h[r]?) ∧
       All2 (ExpandRel 1 h h') c.attr attrs' ∧
-      AlignedAll h' { data := c.data ++ [v], attr := attrs' } := by
+      AlignedAll h' { c with data := c.data ++ [v], attr := attrs' } := by
   obtain ⟨h', l', e1, e2, e3, e4⟩ := forAttrs_expand_spec 1 c.attr h (fun p hp hd => (hal p hp hd).2)
   refine ⟨h', l', ?_, e3, e4, ?_⟩
   · simp [contAppend, e1]
@@ -408,13 +408,13 @@ theorem append_all_attributes (h : Heap) (c : Cont) (v : Nat) (hal : AlignedAll 
 itself): every dense attribute grows by exactly the number of appended elements — for `c += c` the old size -/
 theorem iadd_all_attributes (h : Heap) (c : Cont) (o : Other) (ho : o ≠ .junk) (hal : AlignedAll h c) :
     let extra := match o with | .seq _ l => l | .cont d => d | .me => c.data | .junk => []
-    ∃ h' attrs', contIadd o h c = .ok ((), h', { data := c.data ++ extra, attr := attrs' }) ∧
+    ∃ h' attrs', contIadd o h c = .ok ((), h', { c with data := c.data ++ extra, attr := attrs' }) ∧
       (∀ r, r < h.length → h'[r]? = h[r]?) ∧
       All2 (ExpandRel extra.length h h') c.attr attrs' ∧
-      AlignedAll h' { data := c.data ++ extra, attr := attrs' } := by
+      AlignedAll h' { c with data := c.data ++ extra, attr := attrs' } := by
   intro extra
   obtain ⟨h', l', e1, e2, e3, e4⟩ := forAttrs_expand_spec extra.length c.attr h (fun p hp hd => (hal p hp hd).2)
-  have hal' : AlignedAll h' { data := c.data ++ extra, attr := l' } := by
+  have hal' : AlignedAll h' { c with data := c.data ++ extra, attr := l' } := by
     intro q hq hd
     have := all2_aligned extra.length h h' c.data.length c.attr l' e4 (fun p hp hd => (hal p hp hd).1) q hq hd
     simpa using this
